@@ -413,6 +413,7 @@ class World:
             if len(order) > 1:
                 k = c.choose(math.factorial(len(order)), "perm")
                 order = list(list(itertools.permutations(order))[k])
+            self.event("finish", via, tuple(f.label for f in order))
             remaining = list(order)
             for f in order:
                 if mon is not None:
@@ -429,6 +430,7 @@ class World:
         n = len(pending)
         k = c.choose(2**n - 1, "done") + 1 if n > 1 else 1
         done = {f for i, f in enumerate(pending) if (k >> i) & 1}
+        self.event("finish", via, tuple(f.label for f in sorted(done, key=lambda f: f.uid)))
         for f in sorted(done, key=lambda f: f.uid):
             self._finish(f)
         for f in done:
